@@ -3,7 +3,7 @@ from ._core_common import *  # noqa
 
 PROP = "C03"
 SCHEDULERS = ("eager", "rr")
-OPTS = dict(multi=True, p_single_group=0.3, alias=True, combiner=True, fsm=True, nested_methods=True, p_fresh=0.96)
+OPTS = dict(multi=True, mgroup=True, p_single_group=0.3, alias=True, combiner=True, fsm=True, nested_methods=True, p_fresh=0.96)
 BOUNDS = {"quick": "40 batches x 12 random designs (<=3 transactions + nested, <=5 methods, If/Elif/Else, sibling If, Switch, FSM, enable_call, aliases, combiners, nested bodies), "
                    "both schedulers where applicable; per design all inputs and all register states",
           "thorough": "400 batches x 25 random designs, VERIF_SEED-seeded"}
